@@ -9,6 +9,10 @@ COMMON_NOTE = ("Trusted base: rustc/cargo 1.80.1, serde/serde_json, syn, python 
                "see DESIGN.md section 4 'Outside' for what the bound leaves open.")
 
 CHECKS = {
+ "C15": dict(
+  text="For 3-4 schemas (example.json, an x-rust-type document, depth-2 representatives) every option assignment expressible in each front-end with <=1 (quick) / <=2 (thorough, plus CLI triples) features on x builder off/on: derives (incl. a path), map types, unknown-crate policies, crate versions incl. names with digits/hyphens/underscores, *, !, renames; macro-only: patch, replace with every subset of the three impls through the `: ?Display + Default` syntax, convert. The builder items come from the adapter; the real cargo-typify binary built from /repo is run on each; the real import_types! macro is expanded by rustc next to the builder's tokens. Items must be equal token for token. CLI output-path rules and 'nothing written on failure' are run; every crate-specifier string of <=3/4 tokens over a 12-token alphabet is judged against a reference grammar.",
+  design="DESIGN.md 4/C15", technique="bounded exhaustive option enumeration across three real front-ends; token-for-token differential comparison of syn-parsed items",
+  note="Items are compared as syn-parsed token text with string literals compared by value and rustfmt's trailing commas / module_path!() text normalised. Macro expansion uses rustc 1.80.1 -Zunpretty=expanded (RUSTC_BOOTSTRAP=1). " + COMMON_NOTE),
  "C04": dict(
   text="Exhaustive grammar of serde-derivable Rust definitions instead of random universes: field types (6 scalars; Option/Vec/[_;2]/Box/BTreeMap/tuple of scalars; references to a second type), containers (named struct, tuple/newtype/unit struct, enums under all four taggings with every multiset of <=3 variant kinds), attribute features (rename_all x3, container/field/variant rename, default, deny_unknown_fields, skip_serializing_if) with <=k deviations, fixed-length-array variants in both orders, two-type universes for every outer x inner kind. The real schemars derives the schemas; the real typify-impl generates T' by both ingestion routes; compiled T' deserialises every sample value (full product of 2 values per field type) and the original crate reads back what T' wrote and compares with the original value.",
   design="DESIGN.md 4/C04", technique="exhaustive grammar enumeration; end-to-end execution Rust -> schemars -> typify -> rustc -> serde on every sample value; differential oracle against the original type",
